@@ -48,6 +48,8 @@ def main():
             sh(["git", "-C", REPO, "checkout", "--", "."])
             if saved is not None:      # evidence must describe runs on the unchanged tree only
                 open(ev, "w").write(saved)
+            # Gen/Src_*.v were regenerated from the patched tree: regenerate from the clean one
+            sh([sys.executable, os.path.join(VERIF, "tools", "gen_src.py"), REPO])
         print(n, json.dumps(results[n]))
         sys.stdout.flush()
     json.dump(results, open(os.path.join(VERIF, "seeded", "RESULTS.json"), "w"), indent=1)
